@@ -85,6 +85,97 @@ def FaList : List Expr → Bool
   | e :: es => Ff false "" e && FaList es
 end
 
+mutual
+/-- Fz self: the forms in TAIL POSITION of the body of the function `self` — where a call of `self` is
+compiled as a self tail call (guard, operands inline, `prepareCall`, scopes removed, `goto 0`; F2c):
+calls of `self` (its operands free of direct calls of `self`), and `begin`/`cond`/`let`/`letseq`/`newScope`
+whose last form resp. arms are in tail position; everything else as in `Ff true self`. -/
+def Fz (self : String) : Expr → Bool
+  | .call (.sym h) args => (h != "") && okHead h && FaList args && ((h != self) || FfList false self args)
+  | .begin_ es => FzList self es
+  | .cond arms d => FzArms self arms && Fz self d
+  | .newScope es => !es.isEmpty && FzList self es
+  | .let_ seq bs body =>
+    (seq || decide ((bs.map (·.1)).Nodup)) && !body.isEmpty && FfBinds true self bs && FzList self body
+  | .int v => Ff true self (.int v)
+  | .bool v => Ff true self (.bool v)
+  | .str v => Ff true self (.str v)
+  | .nilLit => Ff true self .nilLit
+  | .sym x => Ff true self (.sym x)
+  | .arr es => Ff true self (.arr es)
+  | .def_ x e => Ff true self (.def_ x e)
+  | .set_ x e => Ff true self (.set_ x e)
+  | .and_ es => Ff true self (.and_ es)
+  | .or_ es => Ff true self (.or_ es)
+  | .for_ l i t s b => Ff true self (.for_ l i t s b)
+  | .fn ps rest body => Ff true self (.fn ps rest body)
+  | .defn name ps rest body => Ff true self (.defn name ps rest body)
+  | _ => false
+def FzList (self : String) : List Expr → Bool
+  | [] => true
+  | [e] => Fz self e
+  | e :: e' :: es => Ff true self e && FzList self (e' :: es)
+def FzArms (self : String) : List (Expr × Expr) → Bool
+  | [] => true
+  | (p, b) :: r => Ff true self p && Fz self b && FzArms self r
+end
+
+mutual
+theorem fz_of_ff : ∀ (self : String) (e : Expr), Ff true self e = true → Fz self e = true
+  | self, .call f args, h => by
+    cases f with
+    | sym x =>
+      rw [Ff] at h; simp only [Bool.and_eq_true] at h
+      rw [Fz]; simp only [Bool.and_eq_true, Bool.or_eq_true]
+      exact ⟨⟨⟨h.1.1.2, h.1.2⟩, h.2⟩, Or.inl h.1.1.1⟩
+    | _ => simp [Ff] at h
+  | self, .begin_ es, h => by rw [Ff] at h; rw [Fz]; exact fzList_of_ff self es h
+  | self, .cond arms d, h => by
+    rw [Ff] at h; simp only [Bool.and_eq_true] at h
+    rw [Fz]; simp only [Bool.and_eq_true]
+    exact ⟨fzArms_of_ff self arms h.1, fz_of_ff self d h.2⟩
+  | self, .newScope es, h => by
+    rw [Ff] at h; simp only [Bool.and_eq_true] at h
+    rw [Fz]; simp only [Bool.and_eq_true]
+    exact ⟨h.1, fzList_of_ff self es h.2⟩
+  | self, .let_ seq bs body, h => by
+    rw [Ff] at h; simp only [Bool.and_eq_true] at h
+    rw [Fz]; simp only [Bool.and_eq_true]
+    exact ⟨⟨⟨h.1.1.1, h.1.1.2⟩, h.1.2⟩, fzList_of_ff self body h.2⟩
+  | self, .int v, h => by rw [Fz]; exact h
+  | self, .bool v, h => by rw [Fz]; exact h
+  | self, .str v, h => by rw [Fz]; exact h
+  | self, .nilLit, h => by rw [Fz]; exact h
+  | self, .sym x, h => by rw [Fz]; exact h
+  | self, .arr es, h => by rw [Fz]; exact h
+  | self, .def_ x e, h => by rw [Fz]; exact h
+  | self, .set_ x e, h => by rw [Fz]; exact h
+  | self, .and_ es, h => by rw [Fz]; exact h
+  | self, .or_ es, h => by rw [Fz]; exact h
+  | self, .for_ l i t s b, h => by rw [Fz]; exact h
+  | self, .fn ps rest body, h => by rw [Fz]; exact h
+  | self, .defn name ps rest body, h => by rw [Fz]; exact h
+  | self, .assign _ _, h => by simp [Ff] at h
+  | self, .bad _, h => by simp [Ff] at h
+  | self, .break_ _, h => by simp [Ff] at h
+  | self, .continue_ _, h => by simp [Ff] at h
+theorem fzList_of_ff : ∀ (self : String) (es : List Expr), FfList true self es = true → FzList self es = true
+  | _, [], _ => by rw [FzList]
+  | self, [e], h => by
+    rw [FfList] at h; simp only [Bool.and_eq_true] at h
+    rw [FzList]; exact fz_of_ff self e h.1
+  | self, e :: e' :: es, h => by
+    rw [FfList] at h; simp only [Bool.and_eq_true] at h
+    rw [FzList]; simp only [Bool.and_eq_true]
+    exact ⟨h.1, fzList_of_ff self (e' :: es) h.2⟩
+theorem fzArms_of_ff : ∀ (self : String) (arms : List (Expr × Expr)), FfArms true self arms = true → FzArms self arms = true
+  | _, [], _ => by rw [FzArms]
+  | self, (p, b) :: r, h => by
+    rw [FfArms] at h; simp only [Bool.and_eq_true] at h
+    rw [FzArms]; simp only [Bool.and_eq_true]
+    exact ⟨⟨h.1.1, fz_of_ff self b h.1.2⟩, fzArms_of_ff self r h.2⟩
+end
+
 /-- the generator's name for the function being compiled: the one the fragment was checked
 against, none, or the name of an anonymous function -/
 def FnameOk (self : String) (c : Ctx) : Prop :=
@@ -549,6 +640,13 @@ stack, last first), body, epilogue -/
 def fnCode (t : Nat) (ps : List String) (b : List Instr) : List Instr :=
   [.addFuncScope t] ++ (ps.map Instr.popStackPutEnv).reverse ++ b ++ [.removeScope, .ret]
 
+/-- what the generator knows about the function whose body it compiles (for the arity check of a self
+tail call, `knownFunctions`): under its own name it finds the template with these formals -/
+def KnownOk (cb : Ctx) (gs0 : GS) (ps : List String) : Prop :=
+  cb.funcname ≠ "" → (∃ t' : Nat, cb.funcname = s!"__anon{t'}") ∨
+    ∃ t, cb.known.lookup cb.funcname = some t ∧ t < gs0.fns.length ∧ (gs0.fns.getD t {}).varargs = false
+      ∧ (gs0.fns.getD t {}).nargs = ps.length ∧ (gs0.fns.getD t {}).params = ps
+
 /-- VM function `vid` is a closure object for the reference closure `m vid`: parameters as declared,
 code compiled from the body, and its closing stack — with those of the functions that made it — is
 the static chain of the closure's environment -/
@@ -562,7 +660,7 @@ structure GoodFn (m : Nat → Nat) (s : St) (rs : Ref.St) (vid : Nat) : Prop whe
         ∧ FnChainF s rs.frames (fnOf s vid).closing k' p)
     ∧ ∃ t b tl isFn cb gs0 gs1 self, (fnOf s vid).code = fnCode t c.ps b ∧ t < s.fns.length
         ∧ (fnOf s t).closing = [some 0] ∧ (compileBegin isFn cb c.body).run gs0 = .ok ((b, tl), gs1) ∧ cb.scopes = 0
-        ∧ FnameOk self cb ∧ FfList true self c.body = true ∧ GenOk gs0 gs1 s
+        ∧ FnameOk self cb ∧ FzList self c.body = true ∧ GenOk gs0 gs1 s ∧ KnownOk cb gs0 c.ps
 
 /-- the reference closure table only grows -/
 def ClosExt (rs rs' : Ref.St) : Prop := ∀ (i : Nat) (c : Ref.Clos), rs.clos[i]? = some c → rs'.clos[i]? = some c
@@ -583,14 +681,14 @@ theorem GoodFn.mono {m m' : Nat → Nat} {s s' : St} {rs rs' : Ref.St} {vid : Na
     (hfl : ∀ i, i < s.scopes.length → isFnScope s' i = isFnScope s i) (hr : RExt rs rs') (hm : m' vid = m vid) :
     GoodFn m' s' rs' vid := by
   obtain ⟨hlt, hnm, c, h1, h3, h4, h5, h6, h7, h8, h9, h10, hel, ⟨k', p, hp1, hp2, hch, hfc⟩,
-    t, b, tl, isFn, cb, gs0, gs1, self, hc1, hc2, hc3, hc4, hc5, hc6, hc7, hc8⟩ := h
+    t, b, tl, isFn, cb, gs0, gs1, self, hc1, hc2, hc3, hc4, hc5, hc6, hc7, hc8, hc9⟩ := h
   have e := hk.same vid hlt (by omega)
   have hfle : ∀ i, i ≤ c.env → isFnScope s' i = isFnScope s i := fun i hi => hfl i (by omega)
   refine ⟨Nat.lt_of_lt_of_le hlt hk.len, hnm, c, by rw [hm]; exact hr.2 _ _ h1, h3, h4, h5, h6, by rw [e]; exact h7,
     by rw [e]; exact h8, by rw [e]; exact h9, by rw [e]; exact h10, Nat.lt_of_lt_of_le hel hsl,
     ⟨k', p, by rw [e]; exact hp1, hp2, by rw [e]; exact hch.congr hr.1 hfle, ?_⟩,
     t, b, tl, isFn, cb, gs0, gs1, self, by rw [e]; exact hc1, Nat.lt_of_lt_of_le hc2 hk.len,
-    by rw [hk.closing t hc2]; exact hc3, hc4, hc5, hc6, hc7, hc8.mono hk⟩
+    by rw [hk.closing t hc2]; exact hc3, hc4, hc5, hc6, hc7, hc8.mono hk, hc9⟩
   rw [e]
   exact hfc.transfer s.scopes.length hfl hr.1 hk (fun q hq => Nat.lt_trans (hch.k_lt q hq) hel)
     (takeToBoundary_chain hch hfle)
@@ -1383,7 +1481,7 @@ theorem GoodFn.create {m : Nat → Nat} {s : St} {rs : Ref.St} {env : Nat} (h : 
     (huser : (fnOf s t).user = false) (htlt : t < s.fns.length) (htclo : (fnOf s t).closing = [some 0])
     (hcode : ∃ b tl isFn cb gs0 gs1 self, (fnOf s t).code = fnCode t c.ps b
       ∧ (compileBegin isFn cb c.body).run gs0 = .ok ((b, tl), gs1) ∧ cb.scopes = 0
-      ∧ FnameOk self cb ∧ FfList true self c.body = true ∧ GenOk gs0 gs1 s)
+      ∧ FnameOk self cb ∧ FzList self c.body = true ∧ GenOk gs0 gs1 s ∧ KnownOk cb gs0 c.ps)
     (s₁ : St) (rs₁ : Ref.St) (hs1 : s₁ = afterClosure s t) (hrs1 : rs₁ = { rs with clos := rs.clos ++ [c] }) :
     GoodFn (mapWith m s.fns.length rs.clos.length) s₁ rs₁ s.fns.length := by
   subst hs1; subst hrs1
@@ -1396,10 +1494,10 @@ theorem GoodFn.create {m : Nat → Nat} {s : St} {rs : Ref.St} {env : Nat} (h : 
   have hk : FnsKeep s (afterClosure s t) := FnsKeep.of_eq (by rw [hfns1]; simp) hfo1 hmain
   have hmv : mapWith m s.fns.length rs.clos.length s.fns.length = rs.clos.length := by unfold mapWith; rw [if_pos rfl]
   have hcl : (closureObj s t).closing = Scope.takeToBoundary (isFnScope s) s.linear := closingNow_topSeg hc h.bottom
-  obtain ⟨b, tl, isFn, cb, gs0, gs1, self, hcd, hcomp, hsc0, hfname, hff, hgen⟩ := hcode
+  obtain ⟨b, tl, isFn, cb, gs0, gs1, self, hcd, hcomp, hsc0, hfname, hff, hgen, hkn⟩ := hcode
   refine ⟨by rw [hfns1]; simp, hmain, c, ?_, hrest, hnd, hps, hbody, ?_, ?_, ?_, ?_, ?_,
     ⟨k, s.curfunc, ?_, hfc.lt, ?_, ?_⟩, t, b, tl, isFn, cb, gs0, gs1, self, ?_, Nat.lt_of_lt_of_le htlt hk.len, ?_, hcomp,
-    hsc0, hfname, hff, hgen.mono hk⟩
+    hsc0, hfname, hff, hgen.mono hk, hkn⟩
   · rw [hmv]; show (rs.clos ++ [c])[rs.clos.length]? = _; simp
   · rw [hnew1]; exact hparams
   · rw [hnew1]; exact hnargs
